@@ -175,6 +175,20 @@ def directed(rng, quick):
                     ops = list(seq) + ['w0:' + hx(rbytes(rng, 2)), 'w1:' + hx(rbytes(rng, 2)), 'w2:' + hx(rbytes(rng, 1))]
                     ops += polls(rng, 2) + ['k1', 'k0'] + polls(rng, 3) + ['xr0'] + polls(rng, 1)
                     yield payload('refused', ds, ops)
+    # --- a poll whose wait fails with EINTR (op I): nothing is served and nothing is reported, whatever is registered
+    #     (idle descriptors, descriptors with data, writers, hung-up peers, slots erased just before); everything is
+    #     served by the following polls as usual
+    for kind in KINDS:
+        for conn in (True, False):
+            for doc in ((False, True) if conn else (False,)):
+                for pre in ([], ['w0:' + hx(rbytes(rng, 2))], ['k0'], ['w0:' + hx(rbytes(rng, 1)), 'k0'], ['p'], ['xr0', 'ar0'],
+                            ['ar1', 'xr1']):
+                    ds = [desc(kind, conn, doc, rng.choice([1, 9])), desc(rng.choice(KINDS), rng.random() < 0.5, False, 9),
+                          desc('s', rng.random() < 0.5, False, 9)]
+                    ops = ['ar0'] + (['ar1'] if rng.random() < 0.7 else []) + (['aw2'] if rng.random() < 0.4 else [])
+                    ops += pre + ['I'] + (['I'] if rng.random() < 0.3 else [])
+                    ops += ['w0:' + hx(rbytes(rng, 2)), 'w1:' + hx(rbytes(rng, 1))] + polls(rng, 2) + ['k0', 'I'] + polls(rng, 2)
+                    yield payload('eintr', ds, ops)
     # --- write readiness on sockets; write callback removing itself / the read side / another descriptor
     for conn in (True, False):
         for ws in ([], ['x0w'], ['x0r'], ['x0w', 'a0w'], ['x1r'], ['x0r', 'a0r']):
@@ -252,6 +266,9 @@ def random_case(rng):
             ops.append(rng.choice(['aw%d', 'xw%d']) % d)
         else:
             ops.append(rng.choice('pq'))
+    if rng.random() < 0.2:       # some polls are interrupted (EINTR)
+        for _ in range(rng.choice([1, 1, 2])):
+            ops.insert(rng.randrange(len(ops) + 1), 'I')
     ops += polls(rng, 2)
     return payload('random%d' % n, descs, ops)
 
